@@ -11,7 +11,7 @@ def fresh():
     head = subprocess.check_output(['git','-C','/repo','rev-parse','HEAD'], text=True).strip()
     if not os.path.isdir(WT):
         sh(f'git -C /repo worktree add -q --detach {WT} {head}')
-    sh(f'git checkout -q --detach {head} && git checkout -- . && git clean -fdq', cwd=WT)
+    sh(f'git reset -q --hard && git checkout -q --detach {head} && git reset -q --hard {head} && git clean -fdq', cwd=WT)
     return head
 def main():
     for d in sys.argv[1:]:
@@ -47,10 +47,10 @@ def main():
             return rc, out
         if demos:
             rc, out = run_demo(); res['demo_fails_with_patch'] = rc != 0; res['demo_out_with'] = out[-600:]
-            sh('git checkout -- . ', cwd=WT)
+            sh('git reset -q --hard', cwd=WT)
             rc, out = run_demo(); res['demo_passes_without_patch'] = rc == 0
             if rc != 0: res['demo_out_without'] = out[-1500:]
-        sh('git checkout -- . && git clean -fdq', cwd=WT)
+        sh('git reset -q --hard && git clean -fdq', cwd=WT)
         res['ok'] = bool(res.get('applies') and res.get('suite_passes_with_patch') and res.get('demo_fails_with_patch') and res.get('demo_passes_without_patch'))
         res['demo_run'] = f"cp <demo> {sub}/ ; go1.26.8 test -vet=off -count=1 -run '{pat}' ./{sub}/"
         json.dump(res, open(d + '/verified.json', 'w'), indent=1)
